@@ -86,7 +86,8 @@ def _init_work_base():
     global _WORK_BASE, _WORK_BASE_PID
     root = os.environ.get('VERIF_WORK')
     if not root:
-        root = os.path.join('/tmp', 'vx-orphan-%d' % os.getpid())
+        base = '/dev/shm' if (os.path.isdir('/dev/shm') and os.access('/dev/shm', os.W_OK | os.X_OK)) else '/tmp'
+        root = os.path.join(base, 'vx-orphan-%d' % os.getpid())
     os.makedirs(root, exist_ok=True)
     _WORK_BASE = os.path.join(root, 'p%d' % os.getpid())
     os.makedirs(_WORK_BASE, exist_ok=True)
